@@ -315,7 +315,7 @@ impl GraphQuery for Graph {
         Constant: TypedConstant<T>,
     {
         self.get_node(node_id).and_then(|node| match node {
-            Node::Constant(const_node) => const_node.as_scalar(),
+            Node::Constant(const_node) if const_node.ndim() == 0 => const_node.as_scalar(),
             _ => None,
         })
     }
